@@ -92,6 +92,15 @@ def run(ctx):
     aimed = []
     for name in ("rearm", "accept"):
         aimed += ctx.tlc("ReloadWatch", "ReloadWatch_haz%s.cfg" % name, count=False).printed_json("SCEN")
+    # every behaviour of two operations that puts the initial (evaluated) content back: a revert inside or
+    # outside the debounce window, notifications delivered or lost, in every order with ticks and expiries
+    all2 = ctx.tlc("ReloadWatch", "ReloadWatch_all2.cfg", count=False).printed_json("SCEN")
+    revert = [s for s in all2 if [x["c"] for x in s["steps"] if x["a"] == "op"][-1:] == [s["steps"][0]["c"]]
+              and len({x["c"] for x in s["steps"] if x["a"] in ("op", "init")}) > 1]
+    nrev = len(revert)
+    rnd.shuffle(revert)
+    revert = revert[:ctx.pick(60, 400)]
+    aimed += revert
     residual = ctx.tlc("ReloadWatch", "ReloadWatch_hazboth.cfg", count=False).printed_json("SCEN")
     for s in residual:
         s["residual"] = True
@@ -99,9 +108,9 @@ def run(ctx):
                   simulate=ctx.pick(200, 2500), depth=24, timeout=1800).printed_json("SCEN")
     scens = haz + aimed + residual + sim
     rnd.shuffle(scens)
-    ctx.log("scenarios: %d of %d stale-fingerprint hazards + %d hazards of the rearm/accept designs (file operation inside "
-            "the callback, rejecting callback) + %d residual + %d simulated"
-            % (len(haz), nhaz, len(aimed), len(residual), len(sim)))
+    ctx.log("scenarios: %d of %d stale-fingerprint hazards + %d aimed (hazards of the rearm/accept designs: file "
+            "operation inside the callback, rejecting callback; %d of %d reverts to the evaluated content) + %d residual "
+            "+ %d simulated" % (len(haz), nhaz, len(aimed), len(revert), nrev, len(residual), len(sim)))
     with open(ctx.path("scen.json"), "w") as fh:
         json.dump(scens, fh)
 
@@ -122,7 +131,14 @@ def run(ctx):
         if ev == "stalled":
             key, desc = "no-rest", "the loop did not come to rest within 20 s"
         elif ev == "rw.callback":
-            key, desc = "callback-for-evaluated", "the callback ran for the fingerprint it evaluated last"
+            prev = [x for x in rj["run"][:rj["bad_index"]] if x.get("ev") == "rw.callback"]
+            last = prev[-1]["fp"] if prev else rj["run"][0].get("init")
+            if bad.get("fp") == last:
+                key, desc = "callback-for-evaluated", "the callback ran for the fingerprint it evaluated last"
+            else:
+                key = "callback-for-content-the-file-no-longer-holds"
+                desc = ("the callback was started for fingerprint %s although the file has not held it since the "
+                        "loop's last read (a change the loop saw reverted)" % bad.get("fp"))
         elif ev == "settled":
             cbs = [x for x in rj["run"] if x.get("ev") == "cb"]
             calls = [x for x in rj["run"] if x.get("ev") == "rw.callback"]
